@@ -80,9 +80,14 @@ package acl
 //@ guard call idna.ToUnicode(s0) in (*domainMatcher).Match
 //@   props C09
 //@   requires s0 == host.Name
-// the wildcard matcher: panic-free for every name and pattern (its verdict is not specified)
+// the wildcard matcher: '*' (42) stands for any sequence of runes, the empty one included; every
+// other rune of the pattern stands for itself; the whole name has to be consumed
+//@ spec rec func wild(s, slo, sn, p, plo, pn) = ite(pn <= 0, ite(sn <= 0, 1, 0), ite(p[plo] == 42, ite(wild(s, slo, sn, p, plo + 1, pn - 1) == 1 || (sn > 0 && wild(s, slo + 1, sn - 1, p, plo, pn) == 1), 1, 0), ite(sn > 0 && s[slo] == p[plo] && wild(s, slo + 1, sn - 1, p, plo + 1, pn - 1) == 1, 1, 0)))
 //@ func deepMatchRune
 //@   props C09 C03
+//@   ensures ret == (wild(row(str), off(str), len(str), row(pattern), off(pattern), len(pattern)) == 1)
+//@   loop 0
+//@     invariant wild(row(str), off(str), len(str), row(pattern), off(pattern), len(pattern)) == old(wild(row(str), off(str), len(str), row(pattern), off(pattern), len(pattern)))
 //@ func (*domainMatcher).Match
 //@   props C09
 //@   nonil
